@@ -237,6 +237,19 @@ func (r *Run) guardedBy(w *World, sp lockSpec) {
 			init := lockState{}
 			if m, ok := sp.HeldByCaller[name]; ok && len(fn.Params) > 0 {
 				init["p0."+sp.Mutex] = m
+			} else if !knownFuncs[name] && fn.Parent() == nil && len(fn.Params) > 0 {
+				// a helper that did not exist on the reference tree (extracted by a refactoring): it runs in the
+				// locking context of its call sites - exempt if only exempt functions call it, otherwise with the
+				// weakest lock mode any caller holds for its receiver
+				mode, exempt, sitesN := r.callerLockContext(w, sp, name)
+				if sitesN > 0 && exempt == sitesN {
+					r.ok(sp.Rule, sname+":exempt", w.rel(fn.Pos()), fmt.Sprintf("%d accesses exempt: new helper called only from exempt functions", len(accs)))
+					sites++
+					continue
+				}
+				if sitesN > 0 && mode > 0 {
+					init["p0."+sp.Mutex] = mode
+				}
 			}
 			ls := locksets(fn, init)
 			for _, a := range accs {
@@ -295,6 +308,59 @@ func (r *Run) guardedBy(w *World, sp lockSpec) {
 	if sites < sp.MinSites {
 		r.missing(sp.Rule, "sites", fmt.Sprintf("only %d accesses of %s{%s} found, expected at least %d", sites, short(sp.Owner), strings.Join(sp.Fields, ","), sp.MinSites))
 	}
+}
+
+// callerLockContext looks at every static call of the named function in the spec's packages: how many call sites
+// there are, how many are in exempt functions, and the weakest mode in which the other sites hold the mutex of the
+// value passed as receiver.
+func (r *Run) callerLockContext(w *World, sp lockSpec, name string) (mode int, exempt int, n int) {
+	mode = 2
+	for _, pkg := range sp.Pkgs {
+		for _, g := range w.FnsInPkg(pkg) {
+			calls := callsNamed(g, name)
+			if len(calls) == 0 {
+				continue
+			}
+			gname := fnName(g)
+			var ls map[*ssa.BasicBlock][]lockState
+			for _, c := range calls {
+				n++
+				if _, isGo := c.(*ssa.Go); isGo {
+					mode = 0
+					continue
+				}
+				if _, isDefer := c.(*ssa.Defer); isDefer {
+					mode = 0
+					continue
+				}
+				if _, ok := sp.ExemptFn[gname]; ok {
+					exempt++
+					continue
+				}
+				if ls == nil {
+					init := lockState{}
+					if m, ok := sp.HeldByCaller[gname]; ok && len(g.Params) > 0 {
+						init["p0."+sp.Mutex] = m
+					}
+					ls = locksets(g, init)
+				}
+				args := c.Common().Args
+				rec := ls[c.Block()]
+				if len(args) == 0 || rec == nil {
+					mode = 0
+					continue
+				}
+				if isLocalAlloc(args[0]) {
+					exempt++
+					continue
+				}
+				if m := rec[instrIndex(c)][term(args[0])+"."+sp.Mutex]; m < mode {
+					mode = m
+				}
+			}
+		}
+	}
+	return mode, exempt, n
 }
 
 func lockStr(s lockState) string {
